@@ -443,6 +443,7 @@ structure St where
   refs : List (String × Sch) := []
   comps : List String := []
   trace : List String := []     -- ghost: which non-default branches were taken (coverage report only)
+  anon : Bool := false          -- ghost: a cycle was cut at a type whose spine does not end in a declared struct
 
 def note (x : String) (σ : St) : St := { σ with trace := x :: σ.trace }
 
@@ -465,13 +466,20 @@ def cycleName : GoType → String
   | .map t => cycleName t
   | .named n => n
   | _ => ""
+/-- pointer/slice/map spine ending in a declared struct: the types `generateCycleSchemaRef` names properly -/
+def spineNamed : GoType → Bool
+  | .ptr t => spineNamed t
+  | .slice t => spineNamed t
+  | .map t => spineNamed t
+  | .named _ => true
+  | _ => false
 def addComp (n : String) (σ : St) : St :=
   { σ with comps := if σ.comps.contains n then σ.comps else n :: σ.comps }
 
 /-- a child position: the generated schema, or the cycle reference when the child reported `CycleError` -/
 def childOf (e : GoType) : R × St → Option Sch × St
   | (.ok s, σ) => (some s, σ)
-  | (.cycle, σ) => (some (cycleSch e), note "cycle.cut" (addComp (cycleName e) σ))
+  | (.cycle, σ) => (some (cycleSch e), note "cycle.cut" (addComp (cycleName e) { σ with anon := σ.anon || !spineNamed e }))
   | (.nofuel, σ) => (none, σ)
 
 def sliceOf (nl : Bool) : Option Sch × St → R × St
@@ -515,7 +523,7 @@ def gcands (all : Bool) (fs : Fields) : List Cand :=
 def finish (t : GoType) : R × St → R × St
   | (.ok s, σ) => (.ok s, { cache := (t, s) :: σ.cache,
                             refs := (match stripPtr t with | .named n => (n, s) :: σ.refs | _ => σ.refs),
-                            comps := σ.comps, trace := σ.trace })
+                            comps := σ.comps, trace := σ.trace, anon := σ.anon })
   | r => r
 
 mutual
